@@ -366,33 +366,6 @@ fn interrupted_backup(work: &Path, arch: &Path, src: &Path, params: &BackupParam
     true
 }
 
-/// A backup killed between the two micro-steps of its FIRST index hunk write: leaves band `b` with a head and
-/// a zero-length hunk 0.  Returns false if no crash point gives that state.
-fn die_on_first_hunk(work: &Path, arch: &Path, src: &Path, params: &BackupParams, b: u32) -> bool {
-    let scratch = work.join("scratch-arch");
-    let fresh = |scratch: &Path| {
-        if scratch.exists() {
-            fs::remove_dir_all(scratch).unwrap();
-        }
-        copy_dir(arch, scratch);
-    };
-    fresh(&scratch);
-    let dry = real_backup(&scratch, src, params, IceptConfig::default());
-    let hunk0 = format!("{}/i/00000/000000000", band_name(b));
-    for k in 0..dry.steps {
-        fresh(&scratch);
-        let _ = real_backup(&scratch, src, params, IceptConfig { crash_at: Some(k), ..Default::default() });
-        let zero = fs::metadata(scratch.join(&hunk0)).map(|m| m.len() == 0).unwrap_or(false);
-        if zero {
-            let _ = fs::remove_dir_all(&scratch);
-            let _ = real_backup(arch, src, params, IceptConfig { crash_at: Some(k), ..Default::default() });
-            return fs::metadata(arch.join(&hunk0)).map(|m| m.len() == 0).unwrap_or(false);
-        }
-    }
-    let _ = fs::remove_dir_all(&scratch);
-    false
-}
-
 pub fn run(tier: &str, seed: u64, report: &mut Report) {
     let thorough = tier == "thorough";
     nix::sys::stat::umask(nix::sys::stat::Mode::from_bits_truncate(0o022));
@@ -454,7 +427,7 @@ pub fn run(tier: &str, seed: u64, report: &mut Report) {
                         continue;
                     }
                 } else if scenario == 4 {
-                    if die_on_first_hunk(work.path(), &arch, &src, &params, 1) && interrupted_backup(work.path(), &arch, &src, &params) && band_incomplete(&arch, 2) {
+                    if crate::sweep::die_on_first_hunk(work.path(), &arch, &src, &params, 1) && interrupted_backup(work.path(), &arch, &src, &params) && band_incomplete(&arch, 2) {
                         report.hit("scenario4:zero-length-hunk-band-in-between");
                         interrupted_band = Some(2);
                     }
